@@ -745,6 +745,28 @@ def unbounded_depth(node):
     return d + (max(unbounded_depth(c) for c in cs_) if cs_ else 0)
 
 
+def quantifier_depth(node):
+    """Maximum nesting depth of quantifier nodes of any kind (an Optional under a large repetition also backtracks)."""
+    cs_ = children(node)
+    return (1 if node[0] == 'q' else 0) + (max(quantifier_depth(c) for c in cs_) if cs_ else 0)
+
+
+def max_bound(node):
+    b = 0
+    for n in walk(node):
+        if n[0] == 'q':
+            for v in (n[4], n[5]):
+                if isinstance(v, int) and not isinstance(v, bool):
+                    b = max(b, v)
+    return b
+
+
+def many_captures(n, sp='class'):
+    """n capturing groups in a row: (a)(b)(c)... - backreferences with two-digit numbers need at least ten groups."""
+    letters = 'abcdefghijklmnopqrstuvwxyz'
+    return ['cat', sp, [['cap', 'class' if i % 2 else 'method', ['lit', letters[i % 26], bool(i % 3)], None] for i in range(n)]]
+
+
 def kinds(node):
     return {n[0] if n[0] not in ('q', 'look', 'anchor') else f'{n[0]}:{n[1]}' for n in walk(node)}
 
@@ -884,9 +906,12 @@ def _mutations(w, rng):
     return out
 
 
-def texts(node, tseed, limit=28, maxlen=24):
+def texts(node, tseed, limit=28, maxlen=None):
     """Subject texts targeted at this tree: witnesses of the tree and of every sub-tree, sibling
     concatenations, one-character mutations, each embedded in a small context."""
+    if maxlen is None:      # wide patterns need room for a whole witness, small ones stay small
+        n = size(node)
+        maxlen = 24 if n < 24 else min(800, 8 * n)
     rng = random.Random(tseed)
     pool = []
     top = witnesses(node, rng, 4)
@@ -1026,7 +1051,8 @@ def tree_strategy(features=ALL_FEATURES, max_leaves=6, look_kinds=('fb', 'pb', '
     from hypothesis import strategies as st
     features = set(features)
     leaf = leaf if leaf is not None else leaf_strategy(features)
-    small = st.integers(0, 4)
+    small = st.one_of(st.integers(0, 4), st.integers(0, 4), st.integers(0, 4), st.integers(0, 4),
+                      st.sampled_from([5, 9, 10, 11, 16, 64, 99, 100, 255, 256]))   # mostly tiny bounds, rarely large ones
 
     def extend(child):
         opts = []
@@ -1154,6 +1180,9 @@ def with_reference(tree, refspec, leaf_mode='own'):
             node = ['q', 'opt', w[1], node, 0, None, w[2]]
         elif w[0] == 'rep':
             node = ['q', 'range', w[1], node, 1, 2, w[2]]
+    if refspec.get('tail') is not None and refspec.get('tail_mode') == 'enclose':
+        parts = [tree, ['enc', 'class' if refspec.get('sp') != 'method' else 'method', node, [refspec['tail']]]]
+        return uniquify_names(['cat', refspec.get('sp', 'class'), parts])
     parts = [tree, node] + ([refspec['tail']] if refspec.get('tail') is not None else [])
     return uniquify_names(['cat', refspec.get('sp', 'class'), parts])
 
@@ -1166,6 +1195,127 @@ def refspec_strategy(features=ALL_FEATURES):
         'kind': st.sampled_from(['bref', 'bref', 'cond']), 'pick': st.integers(0, 7), 'by_name': st.booleans(),
         'then': small, 'else': st.one_of(st.none(), small), 'tail': st.one_of(st.none(), small, digits, digits),
         'sp': st.sampled_from(['class', 'method', 'op', 'method_left']),
+        'tail_mode': st.sampled_from(['concat', 'concat', 'concat', 'enclose']),
         'wrap': st.one_of(st.none(), st.none(), st.tuples(st.sampled_from(['cap']), st.sampled_from(['class', 'method']),
                                                            st.one_of(st.none(), st.sampled_from(['w1', 'w2']))).map(list),
                           st.tuples(st.sampled_from(['grp', 'opt', 'rep']), st.sampled_from(['class', 'method']), st.booleans()).map(list))}))
+
+
+WIDE_ARITIES = [17, 18, 20, 32, 33, 40, 63, 64, 65, 66, 70, 100, 129]
+
+
+def wide_tree_strategy(features=ALL_FEATURES, leaf=None, arities=WIDE_ARITIES):
+    """Rare-but-real shapes that small trees never reach: an n-ary Concat/Either with 17-129 leaf operands, used as an
+    operand of one or two further operators (alternation, concatenation, quantifier, anchor, lookaround, capture, enclose)."""
+    from hypothesis import strategies as st
+    features = set(features)
+    leaf = leaf if leaf is not None else leaf_strategy(features)
+    sp3 = st.sampled_from(['class', 'method', 'method_left'])
+    sp2 = st.sampled_from(['class', 'method'])
+    wide = st.tuples(st.sampled_from(['cat', 'cat', 'alt']), sp3, st.sampled_from(arities).flatmap(
+        lambda k: st.lists(leaf, min_size=k, max_size=k))).map(lambda t: [t[0], t[1] if t[0] == 'alt' or t[1] != 'x' else 'class', t[2]])
+    # operands that are fine on their own but whose texts hold one half of an unbalanced delimiter pair each (inside classes)
+    opener = st.lists(st.sampled_from(list('(<[{a')), min_size=2, max_size=3, unique=True).filter(lambda xs: '(' in xs).map(
+        lambda xs: ['cls', ['from', [['c', x] for x in xs]]])
+    closer = st.lists(st.sampled_from(list(')>]}a')), min_size=2, max_size=3, unique=True).filter(lambda xs: ')' in xs).map(
+        lambda xs: ['cls', ['from', [['c', x] for x in xs]]])
+    split_pair = st.tuples(sp3, st.sampled_from(['class', 'method', 'op']), wide.filter(lambda w: w[0] == 'cat'), opener, closer).map(
+        lambda t: ['alt', t[0], [['cat', t[1], [t[2], t[3]]], t[4]]])
+    level1 = st.one_of(
+        wide, split_pair,
+        st.tuples(sp3, wide, leaf).map(lambda t: ['alt', t[0], [t[1], t[2]]]),
+        st.tuples(sp3, leaf, wide).map(lambda t: ['alt', t[0], [t[1], t[2]]]),
+        st.tuples(sp3, wide, leaf).map(lambda t: ['cat', t[0], [t[1], t[2]]]),
+    )
+    small_q = st.tuples(st.sampled_from(['opt', 'star', 'plus', 'exactly', 'range']), sp2, st.integers(0, 3), st.one_of(st.none(), st.integers(3, 4)),
+                        st.booleans())
+    level2 = st.one_of(
+        level1,
+        st.tuples(sp3, level1, leaf).map(lambda t: ['cat', t[0], [t[1], t[2]]]),
+        st.tuples(sp3, leaf, level1).map(lambda t: ['cat', t[0], [t[1], t[2]]]),
+        st.tuples(small_q, level1).map(lambda t: ['q', t[0][0], t[0][1], t[1], t[0][2], t[0][3], t[0][4]]),
+        st.tuples(st.sampled_from(['start', 'end', 'lstart', 'lend']), sp2, level1).map(lambda t: ['anchor', t[0], t[1], t[2]]),
+        st.tuples(st.sampled_from(['fb', 'nfb', 'npb', 'pb']), sp2, level1, leaf).map(lambda t: ['look', t[0], t[1], t[2], [t[3]]]),
+        st.tuples(sp2, level1, st.one_of(st.none(), st.sampled_from(NAMES))).map(lambda t: ['cap', t[0], t[1], t[2]]),
+        st.tuples(sp2, level1, leaf).map(lambda t: ['enc', t[0], t[1], [t[2]]]),
+    )
+    return level2.map(uniquify_names)
+
+
+def many_captures_case(n, ref, tail_digit, sp='class'):
+    """(a)(b)...(n groups) + Backreference(ref) + 'digit...': two-digit group numbers next to literal digits."""
+    parts = [many_captures(n, sp), ['bref', ref]]
+    if tail_digit is not None:
+        parts.append(['lit', tail_digit, True])
+    return ['cat', sp, parts]
+
+
+def with_child(node, i, new):
+    """Copy of `node` whose i-th child (in the order of children()) is `new`."""
+    n = list(node)
+    k = n[0]
+    if k in ('cat', 'alt'):
+        n[2] = list(n[2])
+        n[2][i] = new
+    elif k == 'enc':
+        if i == 0:
+            n[2] = new
+        else:
+            n[3] = list(n[3])
+            n[3][i - 1] = new
+    elif k == 'q':
+        n[3] = new
+    elif k in ('grp', 'cap'):
+        n[2] = new
+    elif k == 'anchor':
+        n[3] = new
+    elif k == 'look':
+        if i == 0:
+            n[3] = new
+        else:
+            n[4] = list(n[4])
+            n[4][i - 1] = new
+    elif k == 'cond':
+        n[2 + i] = new
+    else:
+        raise ValueError(node)
+    return n
+
+
+def paths(node, prefix=()):
+    """Pre-order list of (path, node); a path is a tuple of child indices."""
+    out = [(prefix, node)]
+    for i, c in enumerate(children(node)):
+        out.extend(paths(c, prefix + (i,)))
+    return out
+
+
+def replace_at(node, path, fn):
+    if not path:
+        return fn(node)
+    c = children(node)[path[0]]
+    return with_child(node, path[0], replace_at(c, path[1:], fn))
+
+
+def bracket_heavy_leaf(features=ALL_FEATURES):
+    """Leaves for wide patterns: mostly bracket classes, many of them holding unbalanced parentheses, '|' or brackets
+    (what the library's own text-based type inference has to see through), plus ordinary leaves."""
+    from hypothesis import strategies as st
+    ch = st.sampled_from(list('()|<>[]{}a'))
+    frm = st.lists(ch, min_size=1, max_size=3, unique=True).map(lambda xs: ['cls', ['from', [['c', x] for x in xs]]])
+    bfrm = st.lists(ch, min_size=1, max_size=2, unique=True).map(lambda xs: ['cls', ['butfrom', [['c', x] for x in xs]]])
+    named = st.sampled_from(['AnyLetter', 'AnyDigit', 'AnyButDigit', 'AnyPunctuation', 'AnyUppercaseLetter']).map(lambda n: ['cls', ['named', n]])
+    return st.one_of(frm, frm, bfrm, named, named, leaf_strategy(features))
+
+
+def bounded_texts(tree, txts):
+    """Keep re's backtracking bounded: shorter / fewer texts for nested repetition, structure-only for a large counted
+    repetition over another quantifier (2^n for a failing text). A timeout is never a verdict, so this only saves time."""
+    depth = unbounded_depth(tree)
+    if max_bound(tree) >= 16 and quantifier_depth(tree) >= 2:
+        return ['']
+    if depth >= 2:
+        txts = list(dict.fromkeys(t[:9] for t in txts))[:14]
+        if max_bound(tree) >= 16 or depth >= 4:
+            txts = list(dict.fromkeys(t[:5] for t in txts))[:5]
+    return txts
